@@ -19,14 +19,22 @@
 #include <control/scalar_basic.hpp>
 #include <control/blocked_basic.hpp>
 #include <control/stokes_power.hpp>
+#include <control/stokes_blocked.hpp>
+#include <control/stokes_3field.hpp>
+#include <control/scalar_mixed.hpp>
 #include <control/asm/transfer_asm.hpp>
 #include <control/asm/transfer_voxel_asm.hpp>
 #include <control/domain/voxel_domain_control.hpp>
 
 using namespace FEAT;
 
+#ifdef C18_ALT
+typedef float DT;
+typedef unsigned int IT;
+#else
 typedef double DT;
 typedef Index IT;
+#endif
 typedef LAFEM::SparseMatrixCSR<DT, IT> ScalarMatrix;
 typedef LAFEM::SparseMatrixBWrappedCSR<DT, IT, 2> BlockedMatrix;
 typedef LAFEM::VectorMirror<DT, IT> Mirror;
@@ -91,4 +99,25 @@ void inst_control(
   bs.assemble_transfer(vf, vc, cub, true, true);
   ps.assemble_velocity_transfer(sf, sc, cub);
   ps.assemble_pressure_transfer(sf, sc, cub);
+}
+
+typedef Control::Domain::VoxelDomainLevelWrapper<StokesDomLvl> VoxStokesDomLvl;
+
+void inst_control_composite(
+  Control::StokesBlockedSystemLevel<2, DT, IT>& sb, Control::Stokes3FieldSystemLevel<2, 3, DT, IT>& s3,
+  Control::ScalarMixedSystemLevel<2, DT, IT>& sm, Control::StokesPowerSystemLevel<2, DT, IT>& ps,
+  const Control::Domain::VirtualLevel<StokesDomLvl>& sf, const Control::Domain::VirtualLevel<StokesDomLvl>& sc,
+  const Control::Domain::VirtualLevel<VoxStokesDomLvl>& xf, const Control::Domain::VirtualLevel<VoxStokesDomLvl>& xc)
+{
+  String cub("x");
+  sb.assemble_transfers(sb, sf, sc, cub, true, true, true);
+  sb.assemble_transfers(sf, sc, cub, true, true, true);
+  sb.assemble_transfers_voxel(sb, xf, xc, cub, true, true, true);
+  sb.assemble_transfers_voxel(xf, xc, cub, true, true, true);
+  sb.compile_system_transfer();
+  sb.compile_scalar_transfer();
+  s3.compile_system_transfer();
+  sm.assemble_transfers(sm, sf, sc, cub, true, true, true);
+  sm.compile_system_transfer();
+  ps.compile_system_transfer();
 }
